@@ -168,6 +168,31 @@ def split_rejoin_probe(ctx, mon, v, rng):
             ctx.nontriv(('sr', o.key()))
 
 
+def many_join(ctx, mon, rng, vals):
+    """join of 9..14 operands (pool values, their slices, styled words, plain strs): a bulk path for many arguments
+    must give what the left fold gives"""
+    L = ctx.L
+    short = [v for v in vals if len(v.base_str) <= 12][-6:]
+    with mon.quiet():
+        words = [L.AnsiString('w%d' % i, rng.choice(['red', 'bold', 'italic', 'bg_blue', 'underline'])) for i in range(4)]
+        parts = []
+        for _ in range(rng.randint(9, 14)):
+            r = rng.random()
+            if r < 0.35 and short:
+                v = rng.choice(short)
+                parts.append(v if r < 0.2 else v[:rng.randint(0, 3)])
+            elif r < 0.8:
+                w = rng.choice(words)
+                parts.append(w if rng.random() < 0.7 else L.AnsiStr(w))
+            else:
+                parts.append(rng.choice(['', ' ', 'q']))
+    ctx.sig('many-join')
+    try:
+        (L.AnsiString if rng.random() < 0.6 else L.AnsiStr).join(*parts)
+    except Exception:
+        pass
+
+
 def seam_workshop_resized(ctx, mon, rng, L):
     """left operands whose text was cut or grown after formatting (assign_str, in-place clip / strip / pad): a style
     that began exactly where the text now ends, or ended where it used to end, must not reach the right operand"""
@@ -372,6 +397,7 @@ def drive(ctx, mon, tier, only_case=None):
         vals = ansi_values(L, ex)
         for v in vals[-5:]:
             split_rejoin_probe(ctx, mon, v, rng)
+        many_join(ctx, mon, rng, vals)
         # pairwise concatenations of pool values incl. a value with itself
         tail = vals[-5:]
         for a in tail:
